@@ -34,7 +34,8 @@ type verifEnv interface {
 // handler storing an access token under a request id of its own - and the authorization endpoint issuing new codes and
 // implicit access tokens in between.
 func verifHistoryTokenEndpoint(ctx context.Context, env verifEnv, code *AuthorizeExplicitGrantHandler, refresh *RefreshTokenGrantHandler,
-	revoke *TokenRevocationHandler, intro *CoreValidator, implicit *AuthorizeImplicitGrantTypeHandler, store AccessTokenStorage, sig0 string) {
+	revoke *TokenRevocationHandler, intro *CoreValidator, implicit *AuthorizeImplicitGrantTypeHandler, cc *ClientCredentialsGrantHandler,
+	ropc *ResourceOwnerPasswordCredentialsGrantHandler, store AccessTokenStorage, sig0 string) {
 	for env.More() {
 		switch env.Kind() {
 		case 0:
@@ -52,9 +53,12 @@ func verifHistoryTokenEndpoint(ctx context.Context, env verifEnv, code *Authoriz
 		case 3:
 			_, _ = intro.IntrospectToken(ctx, env.Token(), env.TokenType(), env.Request(), nil)
 		case 4:
-			// some other grant (client credentials, password, device, JWT bearer, implicit) stores an access token
-			// under the id of its own, new request
+			// some other handler (an extension outside this repository) stores an access token under the id of its own, new request
 			_ = store.CreateAccessTokenSession(ctx, env.Signature(), env.Request())
+		case 7:
+			_ = cc.PopulateTokenEndpointResponse(ctx, env.Request(), env.Response())
+		case 8:
+			_ = ropc.PopulateTokenEndpointResponse(ctx, env.Request(), env.Response())
 		case 5:
 			// the authorization endpoint issues a new authorization code
 			_ = code.IssueAuthorizeCode(ctx, env.AuthorizeRequest(), env.AuthorizeResponse())
